@@ -187,6 +187,11 @@ def gen_rtext(tier, rng):
         for body in ('1.2.3-' + 'a' * (L - 6), '1.2.3' + 'a' * (L - 5), '1.2.3-a+' + 'b' * (L - 8), '1.2.3-' + '.'.join(['a1'] * ((L - 6) // 3))):
             for shape in ('%s', '^%s', '~%s', '>=%s <2', '>%s', '<=%s || 5.x', '%s - 2', '1 - %s', '>=1.0.0 %s', 'v%s'):
                 texts.append(shape % body)
+    # many alternatives, many comparators
+    for nn in SIZES:
+        texts.append(' || '.join('1.0.%d' % i for i in range(nn)))
+        texts.append(' '.join(['>=1.0.0'] * (nn - 1)) + ' <2.0.0 || 0.1.0')
+        texts.append('||'.join(['1.x'] * nn) + ' || 3.0.0-a')
     texts = list(dict.fromkeys(texts))
     cases = []; table = {}; inl = 0
     extra_v = [V(MAX, MAX, MAX)]
@@ -239,6 +244,11 @@ def gen_andor(tier, rng):
     cases = []; pairs = []
     for i in range(n):
         ca = comparator_list_text(rng, parts, garbage=0.05); cb = comparator_list_text(rng, parts, garbage=0.05)
+        if i % 6 == 1:          # longer lists: four to seven comparators in `a b`, a garbage token first or twice in a row now and then
+            ca = comparator_list_text(rng, parts, rng.choice([3, 4]), 0.0); cb = comparator_list_text(rng, parts, rng.choice([1, 2, 3]), 0.0)
+            if i % 12 == 1: ca = [('garbage', rng.choice(RG.GARBAGE))] * rng.choice([1, 2]) + ca
+        if i % 10 == 3:         # the same comparators twice (`a a`), and a `*` at either end of a list
+            cb = list(ca) if i % 20 == 3 else [(rng.choice(['bare', '>=']), (['x'], (), ()))] + cb + ([('bare', (['x'], (), ()))] if i % 40 == 13 else [])
         if i % 7 == 0:          # force an empty conjunction now and then: disjoint comparators on one tuple
             p = rng.choice([q for q in parts if len(q[0]) == 3 and 'x' not in q[0]])
             ca = [('>', p)]; cb = [('<', p)] if i % 14 == 0 else [('<=', (p[0], (), ()))]
@@ -263,6 +273,17 @@ def gen_andor(tier, rng):
         for t in texts.values():
             cases.append(dump(['sat', E_parse(t), pv])); cases.append(dump(['within', E_parse(t), pv]))
         pairs.append((texts, flags))
+    # long comparator sets: SIZES comparators, the narrowing (or contradicting) one last, first, and followed by another alternative
+    p1 = ([1, 0, 0], (), ()); p2 = ([2, 0, 0], (), ()); p05 = ([0, 5, 0], (), ())
+    for nn in SIZES:
+        for (ca, cb) in (([('>=', p1)] * (nn - 1), [('<', p2)]), ([('>=', p1)] * (nn - 1), [('<', p05)]), ([('<', p2)], [('>=', p1)] * (nn - 1))):
+            a = RG.render([('set', ca)]); b = RG.render([('set', cb)])
+            pv = [enc_version(v) for v in probes_for([[('set', ca[:1])], [('set', cb[:1])]])]
+            texts = {'a': a, 'b': b, 'ab': a + ' ' + b, 'ba': b + ' ' + a, 'a|b': a + ' || ' + b, 'b|a': b + ' || ' + a,
+                     'A': a + ' ' + b, 'B': '0.1.0', 'A|B': a + ' ' + b + ' || 0.1.0', 'B|A': '0.1.0 || ' + a + ' ' + b}
+            for t in texts.values():
+                cases.append(dump(['sat', E_parse(t), pv])); cases.append(dump(['within', E_parse(t), pv]))
+            pairs.append((texts, {'ga': False, 'gb': False}))
     gen_andor.pairs = pairs
     cases = list(dict.fromkeys(cases))
     return cases, {'pairs': n, 'what': '%d pairs (a, b) of comparator lists (1-2 comparators each, 5%% with a garbage token, every 7th pair built to have an empty conjunction): a, b, `a b`, `b a`, `a || b`, `b || a` '
